@@ -56,6 +56,7 @@ func selectArmEdges(p *Prog, fn *ssa.Function, sel *ssa.Select, idx int) map[edg
 func runC19(c *Check, a *Analysis) {
 	p := c.P
 	sc := siteCounter{}
+	rulePendingKeys(c, a, "R-PENDING-KEYS")
 	fn := p.Fn("(*Conn).CallWithContext")
 	c.Rule("R-CTX-SELECT", "Conn.CallWithContext waits only in a select over call.Done and ctx.Done(); the cancel arm returns ctx.Err() and neither completes, recycles nor unregisters anything; PutCall is on the completion arm only", 4)
 	if fn == nil {
@@ -290,6 +291,7 @@ func runC20(c *Check, a *Analysis) {
 	ruleSharedLocalMap(c, a, "R-LOCK")
 	ruleSchedNil(c, a, "R-SCHED-NIL")
 	rulePollEOF(c, a, "R-POLL-EOF")
+	ruleWGDiscipline(c, a, "R-WG-DISCIPLINE")
 	ruleLock(c, a, "R-LOCK", "Conn", "closing")
 	ls := a.Locks()
 	sc := siteCounter{}
@@ -706,6 +708,7 @@ func runC12(c *Check, a *Analysis) {
 	p := c.P
 	sc := siteCounter{}
 	ruleHeaderFresh(c, a, "R-HEADER-FRESH")
+	ruleCodeThresholds(c, a, "R-CODE-THRESHOLD")
 	c.Rule("R-RESOLVE-AGREE", "DialWithOptions and ListenWithOptions resolve socket / body codec / header encoder identically: registry looked up by the Options name field first, the constructor field used only when the registry has no entry; results feed NewClientCodec / NewServerCodec in positions 0 and 1", 8)
 	type res struct {
 		registry, nameField, ctorField   string
